@@ -186,6 +186,14 @@ class MultiCoreMachine(Machine):
                         raise InterpError(f"test.op region left by {kind}")
             t = tag_of(op) or 0
             return [1000 + t + i for i, _ in enumerate(op.results)]
+        if n in ("pipeline.pipeline", "pipeline.stage"):
+            # NoTerminator region ops of the snax pipeline dialect (stages without ins/outs): run the body once, in order, on every core
+            for r in op.regions:
+                if r.blocks:
+                    kind, _ = self.interp.run_region(r, [], env)
+                    if kind != "fallthrough":
+                        raise InterpError(f"{n} region left by {kind}")
+            return []
         if n == "test.termop":
             return []
         return NotImplemented
